@@ -13,7 +13,7 @@ back, ball does not leave, late arrival.  Fixed rules (so that an alarm is never
 
 
 class Ball:
-    __slots__ = ("id", "kind", "dev", "switch", "dst", "src", "since", "ambiguous")
+    __slots__ = ("id", "kind", "dev", "switch", "dst", "src", "since", "ambiguous", "stray_until")
 
     def __init__(self, bid):
         self.id = bid
@@ -23,6 +23,7 @@ class Ball:
         self.dst = None
         self.src = None
         self.since = 0.0        # time of arrival at the current place
+        self.stray_until = -1.0  # a ball that jumped out of its path lies still until the controller has given it up
         self.ambiguous = False  # in transit, and another ball entered its source meanwhile: to the source's
                                 # switches this is indistinguishable from "the ejected ball came back"
 
@@ -125,8 +126,9 @@ class PinWorld:
     def in_transit_to(self, devname):
         return sum(1 for b in self.balls if b.kind == "transit" and b.dst == devname)
 
-    def loose(self, pfname=None):
-        return [b for b in self.balls if b.kind == "pf" and (pfname is None or b.dev == pfname)]
+    def loose(self, pfname=None, include_stray=True):
+        return [b for b in self.balls if b.kind == "pf" and (pfname is None or b.dev == pfname)
+                and (include_stray or b.stray_until <= self.sim.now)]
 
     def total(self):
         return len(self.balls)
@@ -197,6 +199,10 @@ class PinWorld:
         outcome = "ok"
         if p_fail and self.rt.flag("eject_fails", p_fail):
             outcome = self.rt.pick("eject_outcome", ["fallback", "stuck", "late"])
+            if self.knobs.get("p_stray") and info.target.name in self.devs and self.rt.flag("stray", self.knobs["p_stray"]):
+                # the ball jumps out of its path and ends up on the playfield; it lies still there (no switch, no drain)
+                # until the source has given it up for lost
+                outcome = "stray"
             if info.jam_switch is not None and ball.switch is not info.jam_switch and self.count(info.name) >= 2 and \
                     self.rt.flag("shaken", 0.5):
                 # the kicked ball drops back onto the jam switch and the other balls are shaken off their switches:
@@ -242,6 +248,14 @@ class PinWorld:
             for o in self.balls:
                 if o is not ball and o.kind == "dev" and o.dev == info.name and o.switch is info.entrance_switch:
                     self._later(self.rt.pick("roll_off", [0.3, 0.15, 0.5]), self._roll_off, o, info)
+        if outcome == "stray":
+            pfname = self.devs[info.target.name].captures_from.name
+            ball.dst = pfname
+            ball.stray_until = self.sim.now + info.eject_timeout + info.missing_timeout + 2.0
+            self.ctx.probe("ball_strays_to_playfield")
+            self._later(0.4, self._arrive, ball, pfname, False)
+            self._later(info.eject_timeout + info.missing_timeout + 2.0, lambda: None)
+            return
         if outcome == "shake":
             ball.dst = info.name
             for o in self.balls:
@@ -318,6 +332,13 @@ class PinWorld:
         for other in self.balls:
             if other is not ball and other.kind == "transit" and other.dst == dstname and not fell_back:
                 if other.src != ball.src and not other.ambiguous:
+                    self.ctx.probe("arrival_ambiguity")
+                other.ambiguous = True
+            elif other is not ball and other.kind == "transit" and not fell_back and ball.src is not None \
+                    and other.src == ball.src and other.dst == other.src and dstname in self.devs:
+                # a (late) ball of an earlier eject of the same source arrives at the target while the source's current
+                # ball is dropping back: the arrival confirms the current eject, the ball dropping back is unknown
+                if not other.ambiguous:
                     self.ctx.probe("arrival_ambiguity")
                 other.ambiguous = True
         if dstname in self.devs:
@@ -409,7 +430,7 @@ class PinWorld:
     def loose_ball_into(self, devname, pick=0):
         """A loose ball rolls into a device (drain, lock shot).  Returns False if no loose ball / no room."""
         info = self.devs[devname]
-        lb = self.loose(info.captures_from.name)
+        lb = self.loose(info.captures_from.name, include_stray=False)
         if not lb:
             return False
         if self.count(devname) + self.in_transit_to(devname) >= info.capacity:
@@ -422,7 +443,7 @@ class PinWorld:
         return True
 
     def loose_ball_hits(self, swname):
-        if not self.loose():
+        if not self.loose(include_stray=False):
             return False
         self.last_pf_activity = self.sim.now
         self._pulse_switch(self.m.switches[swname], 0.02)
